@@ -695,9 +695,14 @@ class C09(Check):
     rule = ('request histories of length 1..12 over 19 request kinds (text, cookies+headers+status, zoo programs, 404, 405, '
             'undecodable path, handler crash, raised response with cookies, returned error, HEAD, closable iterable, '
             'malformed/truncated chunked body, oversized body (Content-Length and chunked), invalid JSON, mapped '
-            'RequestError, cookie then body error) on one application with random hooks/error handlers; each response '
-            'compared with the model and with a fresh application; retention after N identical failing requests '
-            'measured by weak references; non-trivial = history of length >= 2 containing a state-setting request '
+            'RequestError, cookie then body error, unparsable meta-variables (Content-Length / Content-Type / Cookie / '
+            'Range ...) handed over at call time with any outcome, a handler reading the body of a request whose '
+            'Content-Length is not a number, bodies straddling max_memfile_size (8..700 bytes and the default 100 KiB: '
+            'in memory / spooled; Content-Length, chunked, multipart; echoed back)) on one application with random '
+            'hooks/error handlers; each response '
+            'compared with the model and with a fresh application; retention after N requests of one kind '
+            'measured by weak references (environ, wsgi.input, every framework-made object hanging off the environ) '
+            'and by the descriptors left open; non-trivial = history of length >= 2 containing a state-setting request '
             'followed by an error-path request')
     assumptions = [
         'one worker thread (thread-local slots are C08)',
